@@ -6,7 +6,7 @@ import itertools
 import numpy as np
 
 from .. import ops, state
-from ..common import hx, key_family, run_cases
+from ..common import pick, hx, key_family, run_cases
 
 ID = "C15"
 LEVEL = "exploration"
@@ -27,10 +27,10 @@ SHARDS = {"quick": 1, "thorough": 8}
 def cms_grid(rng, randomise):
     w = int(rng.integers(1, 33)) if randomise else 8
     d = int(rng.integers(1, 7)) if randomise else 3
-    mc16 = int(rng.choice([2**32 - 1, 10**7, 2**40])) if randomise else 2**32 - 1
-    nr16 = int(rng.choice([1023, 0, 77])) if randomise else 1023
-    mc8 = int(rng.choice([2**32 - 1, 10**6, 2**40])) if randomise else 2**32 - 1
-    nr8 = int(rng.choice([15, 0, 40])) if randomise else 15
+    mc16 = pick(rng, [2**32 - 1, 10**7, 2**40]) if randomise else 2**32 - 1
+    nr16 = pick(rng, [1023, 0, 77]) if randomise else 1023
+    mc8 = pick(rng, [2**32 - 1, 10**6, 2**40]) if randomise else 2**32 - 1
+    nr8 = pick(rng, [15, 0, 40]) if randomise else 15
     g = [
         {"kind": "linear", "width": w, "depth": d},
         {"kind": "linear", "width": w + 1, "depth": d},
